@@ -1467,3 +1467,48 @@ pub fn replay(body: &Value) -> i32 {
         }
     }
 }
+
+#[cfg(test)]
+mod kf_tests {
+    use super::*;
+
+    fn finding(key: &str, dep: &str) -> Finding {
+        serde_json::from_value(json!({"property": "C09", "key": key, "status": "open", "predicate": {"classifier": "c09.echo", "departs_at_echo_of": dep}})).unwrap()
+    }
+    fn echo(path: &str, q: &str, want: &str) -> Viol {
+        Viol { op_index: 0, class: "echo-unresolved".into(), path: path.into(), q: Some(q.into()), detail: String::new(), want_path: Some(want.into()) }
+    }
+
+    #[test]
+    fn predicates_are_narrow() {
+        let fs = vec![finding("KF1", "double_quoted_name_selector"), finding("KF2", "single_quoted_name_selector_with_escape_other_than_bs_slash")];
+        // the two listed defects
+        assert_eq!(kf_match(&echo("$['\"a\"']", "$[\"a\"]", "$['a']"), &fs).map(|f| f.key.as_str()), Some("KF1"));
+        assert_eq!(kf_match(&echo("$['\\n']", "$['\\n']", "$['\\\\n']"), &fs).map(|f| f.key.as_str()), Some("KF2"));
+        // the same queries, but the path goes wrong somewhere else: not a known finding
+        assert!(kf_match(&echo("$['x'][2]", "$['x'][\"a\"]", "$['x'][1]"), &fs).is_none());
+        assert!(kf_match(&echo("$[0]['\\n']", "$[1]['\\n']", "$[1]['\\n']"), &fs).is_none());
+        // a benign spelling of a solidus in front of a double-quoted echo is skipped, the echo behind it is recognised
+        assert_eq!(kf_match(&echo("$['a\\/']['\"b\"']", "$['a\\/'][\"b\"]", "$['a/']['b']"), &fs).map(|f| f.key.as_str()), Some("KF1"));
+        // ... but a benign spelling alone is no reason to forgive a wrong index behind it
+        assert!(kf_match(&echo("$['a\\/'][1]", "$['a\\/'][::-2]", "$['a/'][2]"), &fs).is_none());
+        // a path that equals the Normalized Path and still does not resolve is never a known finding
+        assert!(kf_match(&echo("$['a']", "$[\"a\"]", "$['a']"), &fs).is_none());
+        // other classes are never matched
+        let mut v = echo("$['\"a\"']", "$[\"a\"]", "$['a']");
+        v.class = "read-missing".into();
+        assert!(kf_match(&v, &fs).is_none());
+        // a fixed entry suppresses nothing
+        let mut fixed = finding("FX", "double_quoted_name_selector");
+        fixed.status = "fixed".into();
+        assert!(kf_match(&echo("$['\"a\"']", "$[\"a\"]", "$['a']"), &[fixed]).is_none());
+    }
+
+    #[test]
+    fn unescape() {
+        assert_eq!(rfc_unescape("a\\/b").as_deref(), Some("a/b"));
+        assert_eq!(rfc_unescape("\\uD83D\\uDE00").as_deref(), Some("\u{1F600}"));
+        assert_eq!(rfc_unescape("\\u000b").as_deref(), Some("\u{b}"));
+        assert_eq!(rfc_unescape("\\x"), None);
+    }
+}
